@@ -114,6 +114,25 @@ reg(["common_traits::Integer::leading_zeros", "common_traits::Integer::trailing_
      "core::num::<impl u64>::trailing_zeros"], post=zeros_post)
 
 
+# --- From<bool> / From<smaller unsigned> for integers: value-preserving (std docs); a bool becomes 0 or 1
+def from_post(num, ev):
+    r = num.aff(ev[3])
+    ga = ev[7] or []
+    if r is None or len(ga) < 2:
+        return []
+    dst, src = ga[0], ga[1]
+    if src == "bool":
+        return [le(const(0), r), le(r, const(1))]
+    ws, wd = num.cfg.width(src), num.cfg.width(dst)
+    a = num.aff(ev[2][0]) if ev[2] else None
+    if ws is not None and wd is not None and a is not None and not str(src).startswith("i") and ws <= wd:
+        return [le(r, a), le(a, r)]
+    return []
+
+
+reg(["std::convert::From::from"], post=from_post)
+
+
 # --- min: result <= both operands (std docs)
 def min_post(num, ev):
     r, a, b = num.aff(ev[3]), num.aff(ev[2][0]), num.aff(ev[2][1])
